@@ -92,14 +92,40 @@ def r1_compare(ck, prog, run):
             ck.same("R1", m.where, f"Phase.{meth}", f"routes to np.{uf_} on the two-part difference", len(calls) == 1
                     and sp.simplify(calls[0][2][0].expr - ((part(p, 'int').expr - part(q, 'int').expr) + (part(p, 'frac').expr - part(q, 'frac').expr))) == 0,
                     found=str([[str(a)[:80] for a in t[2]] for t in calls]), nontrivial=True)
-    # grouping: no single-double collapse of an operand inside the comparison branch
-    branch = _branch(f.node, "COMPARISON_UFUNCS")
-    if branch is None:
-        ck.unk("R1", f.where, "elif function in COMPARISON_UFUNCS", "the comparison branch is found", "no branch testing COMPARISON_UFUNCS")
-    else:
-        bad = collapses(branch)
-        ck.same("R1", f.where, "comparison branch", "no sub-expression adds the integer and fractional part of one operand, or reads .cycle/.value/to_value/astype, before the difference "
-                "(phases closer than the resolution of their cycle count must still be ordered)", not bad, found="; ".join(bad)[:300], nontrivial=True)
+    # grouping: simulate IEEE double evaluation of the *extracted* difference, in the association order of the source, on
+    # phases that differ by less than the resolution of their cycle count
+    from .. import terms as T
+    p, q = make_phase(prog, "p", cycle=1), make_phase(prog, "q", cycle=1)
+    log = PhaseLog()
+    ev = phase_evaluator(prog, log, grouping=True)
+    r = ck.attempt("R1", f.where, "np.less(Phase, Phase) [association kept]", "evaluates", lambda: ev.call(f, [ExtV("ufunc:less:2:1"), StrV("__call__"), p, q], {}, self_val=p))
+    if r is not None:
+        calls = [t for t in ev.trace if t[0] == "ufunc-call" and t[1] == "less"]
+        if len(calls) != 1:
+            ck.unk("R1", f.where, "comparison: floating-point grouping", "one comparison call", f"{len(calls)} calls")
+        else:
+            tree = calls[0][2][0].expr
+            syms = {n_: sp.Symbol(n_, real=True) for n_ in ("p_int", "p_frac", "q_int", "q_frac")}
+            vectors = [(2.0**50, 0.3, 2.0**50, 0.3000001), (2.0**52, -0.25, 2.0**52, -0.2500001), (2.0**40 + 1, -0.4999999, 2.0**40, 0.4999997),
+                       (-(2.0**48), 0.1, -(2.0**48), 0.1000002), (2.0**50, 0.2, 2.0**50, 0.2), (7.0, 0.25, 7.0, 0.26), (2.0**45, 0.5, 2.0**45 + 1, -0.5)]
+            bad = []
+            from fractions import Fraction
+            for (pi_, pf_, qi_, qf_) in vectors:
+                env = {syms["p_int"]: pi_, syms["p_frac"]: pf_, syms["q_int"]: qi_, syms["q_frac"]: qf_}
+                try:
+                    got = T.float_eval(tree, env)
+                except Exception as e:  # noqa
+                    bad.append(("not evaluable", str(e)[:60]))
+                    break
+                exact = (Fraction(pi_) - Fraction(qi_)) + (Fraction(pf_) - Fraction(qf_))
+                sg = (got > 0) - (got < 0)
+                se = (exact > 0) - (exact < 0)
+                if sg != se:
+                    bad.append(((pi_, pf_, qi_, qf_), f"double evaluation gives {got!r}, exact difference {float(exact)!r}"))
+            ck.same("R1", f.where, "comparison: floating-point grouping of the compared difference",
+                    "evaluated in IEEE doubles in the source's association order, the compared quantity has the sign of the exact difference also for phases "
+                    "closer than the resolution of their cycle count (the parts are differenced before they are added)", not bad, found=str(bad[:2]),
+                    expected="sign(double evaluation) == sign(exact)", nontrivial=True)
 
 
 def _branch(fnode, marker):
@@ -180,13 +206,34 @@ def r2_reductions(ck, prog, run):
         ck.same("R2", fm.where, f"Phase.{nm}()", f"{nm} of (int - coarse extremum) + frac: the extremum of the double value is removed from the integer part first",
                 isinstance(r, Num) and sp.simplify(r.expr.args[0] - exp.args[0]) == 0 and r.expr.func == exp.func, found=str(r)[:160], expected=str(exp)[:160],
                 nontrivial=True)
-        bad = collapses(fm.node)
-        bad = [b for b in bad if "self.cycle" not in b or "approx" not in norm(fm.node)]  # the coarse extremum itself is taken from self.cycle
-        subs = [e for e in ast.walk(fm.node) if isinstance(e, ast.BinOp) and isinstance(e.op, ast.Add)]
-        grouping = any(isinstance(e.left, ast.BinOp) and isinstance(e.left.op, ast.Sub) and leaf_part(e.left.left) == ("self", "int")
-                       and leaf_part(e.right) == ("self", "frac") for e in subs)
-        ck.same("R2", fm.where, f"Phase.{nm}: grouping", "(self['int'] - approx) + self['frac']: the large parts cancel before the fraction is added", grouping,
-                found=[norm(e) for e in subs], nontrivial=True)
+        log2 = PhaseLog()
+        ev2 = phase_evaluator(prog, log2, grouping=True)
+        p1 = make_phase(prog, "p", cycle=1)
+        r2 = ck.attempt("R2", fm.where, f"Phase.{nm}() [association kept]", "evaluates", lambda: ev2.call(fm, [], {}, self_val=p1))
+        if r2 is not None and isinstance(r2, Num) and r2.expr.args:
+            from .. import terms as T
+            from fractions import Fraction
+            key = r2.expr.args[0]
+            pi_s, pf_s = sp.Symbol("p_int", real=True), sp.Symbol("p_frac", real=True)
+            cases = [[(2.0**50, 0.3), (2.0**50, 0.3000001), (2.0**50 + 1, -0.4)], [(2.0**52, 0.25), (2.0**52, 0.2499999)],
+                     [(-(2.0**47), -0.1), (-(2.0**47), -0.1000001), (-(2.0**47), 0.3)], [(3.0, 0.1), (2.0, 0.4), (3.0, -0.2)]]
+            bad = []
+            for elems in cases:
+                def reducer(inner, elems=elems):
+                    vals = [T.float_eval(inner, {pi_s: a, pf_s: b}) for a, b in elems]
+                    return min(vals) if red == "RMin" else max(vals)
+                try:
+                    keys = [T.float_eval(key, {pi_s: a, pf_s: b}, {red: reducer}) for a, b in elems]
+                except Exception as e:  # noqa
+                    bad.append(("not evaluable", str(e)[:80]))
+                    break
+                exact = [Fraction(a) + Fraction(b) for a, b in elems]
+                pick = (min if nm == "argmin" else max)(range(len(elems)), key=lambda k_: keys[k_])
+                want = (min if nm == "argmin" else max)(range(len(elems)), key=lambda k_: exact[k_])
+                if pick != want:
+                    bad.append((elems, f"double evaluation selects element {pick}, exact value selects {want}"))
+            ck.same("R2", fm.where, f"Phase.{nm}: floating-point grouping", "evaluated in IEEE doubles in the source's association order, the selected element is the exact "
+                    "extremum also when elements differ by less than the resolution of their cycle count", not bad, found=str(bad[:2]), nontrivial=True)
     # min / max / sort / ptp are index selections
     for nm, idx in (("min", "argmin"), ("max", "argmax"), ("sort", "argsort")):
         fm = prog.func("Phase." + nm)
